@@ -173,7 +173,10 @@ class Harness(cm.BaseB):
         V = []
         try:
             if via_ids:
-                arr = commands.evo_make_selection_array(R, C, [well_id(r, c) for r, c in sorted(sel)])
+                names = [well_id(r, c) for r, c in sorted(sel)]
+                if len(names) % 2 == 1:
+                    names = names + names[:1] + names[-1:]  # naming a well twice selects it once
+                arr = commands.evo_make_selection_array(R, C, names)
                 if arr.shape != (R, C) or {(int(r), int(c)) for r, c in zip(*np.nonzero(arr))} != sel:
                     V.append(("C12/selection-array", f"{R}x{C} {sorted(sel)[:6]}: evo_make_selection_array marks {np.argwhere(arr).tolist()[:8]}"))
             else:
